@@ -248,6 +248,23 @@ def run(ctx):
     sm = HC.methods.get("sum")
     ctx.saw(sm)
     rets = [U(n.value) for n in ast.walk(sm.node) if isinstance(n, ast.Return)]
+    hsb = HB.methods["has_same_bins"]
+    ctx.saw(hsb)
+    n_mis, bad_mis = 0, []
+    for p_ in function_paths(hsb.node, loops=2):
+        if end_kind(p_) != "return" or not consistent(p_):
+            continue
+        fails = [s_ for s_ in p_ if s_[0] == "cond" and "allclose" in U(s_[1]) and ".bins" in U(s_[1]) and s_[2] is False]
+        shape_diff = any(s_[0] == "cond" and U(s_[1]) in ("self.shape != other.shape", "other.shape != self.shape") and s_[2] for s_ in p_)
+        ret = path_ret = p_[-1][2].value
+        if fails or shape_diff:
+            n_mis += 1
+            if not (isinstance(ret, ast.Constant) and ret.value is False):
+                bad_mis.append(f"after a failed comparison the result is `{U(ret)}`")
+    rets_ = [U(n.value) for n in ast.walk(hsb.node) if isinstance(n, ast.Return)]
+    ctx.check(n_mis >= 2 and not bad_mis and all(r in ("False", "True", "np.allclose(self.bins, other.bins)", "np.allclose(other.bins, self.bins)") for r in rets_),
+              "C05.c", "HistogramBase.has_same_bins:every-axis", "different shapes or a mismatch on any axis -> False; True only after all axes were compared",
+              "; ".join(sorted(set(bad_mis))[:2]) or f"returns {rets_}", hsb.where)
     csum = m.cls("HistogramCollection").methods["sum"]
     pols = {}
     for p_ in function_paths(csum.node):
